@@ -1,5 +1,5 @@
 use crate::distributions::*;
-use crate::functions::binom_coeff;
+use crate::functions::{binom_coeff, ln_gamma};
 
 /// Implements the [Binomial](https://en.wikipedia.org/wiki/https://en.wikipedia.org/wiki/Binomial_distribution)
 /// distribution with trials `n` and probability of success `p`.
@@ -271,9 +271,21 @@ impl Discrete for Binomial {
         if k < 0 || k as u64 > self.n {
             return 0.;
         }
-        binom_coeff(self.n, k as u64) as f64
-            * self.p.powi(k as i32)
-            * (1. - self.p).powi((self.n - k as u64) as i32)
+        // every C(n, k) with n <= 67 fits in a u64; beyond that the integer coefficient overflows,
+        // so work in log space
+        if self.n <= 67 {
+            return binom_coeff(self.n, k as u64) as f64
+                * self.p.powi(k as i32)
+                * (1. - self.p).powi((self.n - k as u64) as i32);
+        }
+        let (n, k) = (self.n as f64, k as f64);
+        if self.p == 0. || self.p == 1. {
+            return if k == n * self.p { 1. } else { 0. };
+        }
+        (ln_gamma(n + 1.) - ln_gamma(k + 1.) - ln_gamma(n - k + 1.)
+            + k * self.p.ln()
+            + (n - k) * (1. - self.p).ln())
+        .exp()
     }
 }
 
